@@ -22,8 +22,8 @@ import (
 	dockertypes "github.com/docker/docker/api/types"
 	"github.com/docker/docker/api/types/container"
 	"github.com/docker/docker/api/types/network"
-	v1 "github.com/opencontainers/image-spec/specs-go/v1"
 	dockerapi "github.com/docker/docker/client"
+	v1 "github.com/opencontainers/image-spec/specs-go/v1"
 
 	"github.com/projecteru2/core/engine/docker"
 	enginetypes "github.com/projecteru2/core/engine/types"
@@ -33,7 +33,7 @@ import (
 
 type kase struct {
 	ID        string           `json:"id"`
-	Op        string           `json:"op"` // setting | create | update
+	Op        string           `json:"op"`       // setting | create | update
 	CPUBits   string           `json:"cpu_bits"` // IEEE-754 bits of the cpu parameter, decimal
 	CPUTxt    string           `json:"cpu_txt"`  // human readable only
 	Memory    int64            `json:"memory"`
@@ -208,15 +208,15 @@ func corpus() []*kase {
 			Memory: mem, CPUMap: cm, NUMA: numa, Remap: remap, NCPU: 4, ShareBase: 100}
 	}
 	return []*kase{
-		mk("c-quota-029", "setting", 0.29, 512 << 20, nil, "", false),
-		mk("c-quota-029-create", "create", 0.29, 512 << 20, nil, "", false),
-		mk("c-update-unbound-half", "update", 0.5, 512 << 20, nil, "", false),
-		mk("c-update-unbound-two", "update", 2, 512 << 20, nil, "", false),
+		mk("c-quota-029", "setting", 0.29, 512<<20, nil, "", false),
+		mk("c-quota-029-create", "create", 0.29, 512<<20, nil, "", false),
+		mk("c-update-unbound-half", "update", 0.5, 512<<20, nil, "", false),
+		mk("c-update-unbound-two", "update", 2, 512<<20, nil, "", false),
 		mk("c-update-unlimited", "update", 0, 0, nil, "", false),
-		mk("c-bound-frac", "create", 1.5, 1 << 30, map[string]int64{"0": 100, "3": 50}, "1", false),
-		mk("c-bound-update", "update", 1.5, 1 << 30, map[string]int64{"0": 100, "3": 50}, "1", false),
-		mk("c-remap", "update", 0.5, 1 << 30, map[string]int64{"2": 100, "5": 100}, "", true),
-		mk("c-mem-small", "create", 1, 1 << 20, nil, "", false),
+		mk("c-bound-frac", "create", 1.5, 1<<30, map[string]int64{"0": 100, "3": 50}, "1", false),
+		mk("c-bound-update", "update", 1.5, 1<<30, map[string]int64{"0": 100, "3": 50}, "1", false),
+		mk("c-remap", "update", 0.5, 1<<30, map[string]int64{"2": 100, "5": 100}, "", true),
+		mk("c-mem-small", "create", 1, 1<<20, nil, "", false),
 	}
 }
 
